@@ -110,7 +110,11 @@ func indexText(t *kernel.Tape, nLists int) string {
 	}
 	// A sprinkling of invalid entries; the valid ones must still be applied.
 	for i := t.Choose(3, "invalid-entries"); i > 0; i-- {
-		switch t.Choose(8, "invalid-kind") {
+		switch t.Choose(9, "invalid-kind") {
+		case 8:
+			// No record at all where one should be.
+			pos := t.Choose(len(fl)+1, "invalid-position")
+			fl = append(fl[:pos:pos], append([]map[string]any{nil}, fl[pos:]...)...)
 		case 6, 7:
 			// A record that lacks one of its fields altogether, anywhere in
 			// the index: where a complete record stood in the round before.
